@@ -204,6 +204,11 @@ def run_case(case):
             res.emit("enc.kpdec %s" % hx(kp), bitstr(back) if err is None else "exn " + err)
             if back != bits:
                 res.fail("keypath-roundtrip", "decode_to_bin_keypath(encode_from_bin_keypath(%s)) = %r" % (bitstr(bits), back))
+            # the functions are pure: an earlier call must not colour a later one. Decode, right after it, byte strings that
+            # are intermediate forms of the call just made (its bit expansion, the decoded bits) and the same path again.
+            for later in (B.encode_to_bin(kp), bytes(back or b""), kp):
+                d2, err2 = call(lambda: B.decode_to_bin_keypath(later))
+                res.emit("enc.kpdec %s" % hx(later), bitstr(d2) if err2 is None else "exn " + err2)
             packed = B.decode_from_bin(bits)
             res.emit("enc.frombin %s" % bitstr(bits), hx(packed))
             if len(bits) % 8 == 0 and B.encode_to_bin(packed) != bits:
